@@ -71,7 +71,7 @@ func (r *Real64) Max(a, b ConstScalar) Scalar {
 func (c *Real64) Abs(a ConstScalar) Scalar {
   switch a.Sign() {
   case -1: c.Neg(a)
-  case 0: c.Reset()
+  case 0: c.AllocForOne(a); c.Reset()
   case 1: c.Set(a)
   }
   return c
